@@ -237,7 +237,7 @@ class NatData:
     def append(self, bs, n=None):
         n = len(bs) if n is None else n
         self.data += bytes(bs[:n])
-        self.cap += len(bs)
+        self.cap += n
         return self
 
     @property
@@ -277,7 +277,14 @@ class SymEnv:
         return SymBool(v)
 
     def bytes(self, name, n):
-        return [self.int("%s%d" % (name, i), 0, 255) for i in range(n)]
+        out = []
+        for i in range(n):
+            v = z3.BitVec("%s%d" % (name, i), 8)    # 8-bit inputs need no range assertion
+            self.pc.inputs["%s%d" % (name, i)] = v
+            t = z3.ZeroExt(W - 8, v)
+            core.declare_range(t, 0, 255)
+            out.append(SymInt(t))
+        return out
 
     def choice(self, name, n):
         """A finite-domain input decided by forking (one feasible path per value)."""
@@ -683,6 +690,10 @@ def merge(part, results, prop, expected_obligations=()):
                 ex["count"] += v["count"]
                 ex["found_by"] = sorted(set(ex["found_by"] + [r["label"]]))[:12]
                 ex["replay_confirmed"] = ex["replay_confirmed"] or v["replay_confirmed"]
+    okeys = {}
+    for r in results:
+        for key, v in r.get("viol", {}).items():
+            okeys.setdefault(v["obligation"], set()).add(key)
     for o in expected_obligations:
         obl.setdefault(o, {"id": o, "paths": 0, "queries": 0, "unsat": 0, "sat": 0, "unknown": 0, "jobs": 0})
     for o, t in sorted(obl.items()):
@@ -691,7 +702,7 @@ def merge(part, results, prop, expected_obligations=()):
         elif t["unknown"]:
             t["status"], t["note"] = "inconclusive", "solver returned unknown"
         elif t["sat"]:
-            keys = sorted({v["key"] for v in part["violations"] if v["obligation"] == o})
+            keys = sorted(okeys.get(o, ()))
             t["status"], t["note"] = "violated", "counterexamples: " + ", ".join(keys)
         else:
             t["status"], t["note"] = "holds", "unsat on every path within the bound"
